@@ -197,6 +197,15 @@ def f_rel(n=2, on="both", extra=True):
             # relations between a transaction and a method
             yield D([[M("M0"), T("T0", []), T("T1", [call("M0")])]], [[r[0], "T0", "M0", r[1]]])
             yield D([[M("M0"), T("T0", []), T("T1", [call("M0")])]], [[r[0], "M0", "T0", r[1]]])
+        # a prioritised relation between two methods with several callers each: one caller pair sits in exclusive
+        # alternatives (defined first), the other pair does not; both definition orders of the second pair
+        for r in RELS[2:]:
+            for a, b in (("M0", "M1"), ("M1", "M0")):
+                rel = [[r[0], a, b, r[1]]]
+                excl = If([T("T0", [call("M1")])], [T("T1", [call("M0")])], has_else=True)
+                for second in ([T("T2", [call("M1")]), T("T3", [call("M0")])], [T("T2", [call("M0")]), T("T3", [call("M1")])]):
+                    yield D([[M("M0"), M("M1"), excl] + second], rel)
+                    yield D([[M("M0"), M("M1")] + second + [excl]], rel)
         # explicit schedule_before(ready_dependent=True) between non-conflicting bodies
         yield D([[M("M0"), M("M1"), T("T0", [call("M0")]), T("T1", [call("M1")])]], [["before_rd", "T0", "T1", None]])
         yield D([[M("M0"), M("M1"), T("T0", [call("M0")]), T("T1", [call("M1")])]], [["before_rd", "M0", "M1", None]])
@@ -273,6 +282,25 @@ def f_prov():
                    [call("P1", en="in", arg="in")]):
             for b1 in ([call("M0", arg="in")], [call("P0", arg="in")], [call("P1", arg="in")]):
                 yield D([[m0, ["alias", "P0", "M0"], ["alias", "P1", "P0"], T("T0", b0), T("T1", b1)]])
+
+
+def f_consten():
+    """call sites switched off by a constant-false enable_call (an Amaranth Const, e.g. an elaboration-time flag), next to
+    live calls of the same method from the same and from another transaction; 1-bit arguments"""
+    for nx in (False, True):
+        m0 = M("M0", nx=nx, i=1, o="notarg")
+        m1 = M("M1", i=1, o="notarg")
+        c0 = call("M0", en="0", arg=1)
+        live = call("M0", arg="in")
+        b0s = [[c0], [c0, call("M1", arg="in")], [If([c0])], [If([c0], [live], has_else=True)], [call("M1", arg=0), c0],
+               [Sw(1, [(0, [c0]), (1, [live])])]]
+        if nx:
+            b0s += [[c0, live], [c0, call("M0", en="in", arg=0)]]
+        for b0 in b0s:
+            for b1 in ([live], [call("M0", en="in", arg="in")], [call("M1", arg="in")], [c0]):
+                yield D([[m0, m1, T("T0", b0), T("T1", b1)]])
+        yield D([[m0, m1, M("A", [c0], nx=nx), T("T0", [call("A")]), T("T1", [live])]])
+        yield D([[m0, m1, M("A", [c0, call("M1", arg=1)]), T("T0", [call("A", en="in")]), T("T1", [live])]])
 
 
 def f_provrel():
@@ -458,6 +486,7 @@ def f_xmod(small=True):
 FAMILIES = {
     "xmod": f_xmod,
     "provrel": f_provrel,
+    "consten": f_consten,
     "flat": f_flat, "chain": f_chain, "ctrl": f_ctrl, "rel": f_rel, "nest": f_nest, "val": f_val, "prov": f_prov,
     "bad": f_bad, "fwd": f_fwd,
 }
